@@ -67,8 +67,11 @@ def short(x, n=300):
     s = x if isinstance(x, str) else repr(x)
     return s if len(s) <= n else s[:n] + "..."
 
-REFUSAL_TYPES = (ValueError, TypeError, NotImplementedError, IndexError, KeyError,
-                 AttributeError, AssertionError, RuntimeError, ZeroDivisionError)
+# A *refusal* is a documented kind of exception. AttributeError / KeyError / IndexError / ... raised from
+# library code on a well-formed call are crashes (a regression that makes a method raise AttributeError
+# must not pass as "refused").  REFUSAL_TYPES_BROAD is for call sites that feed undocumented input types.
+REFUSAL_TYPES = (ValueError, TypeError, NotImplementedError)
+REFUSAL_TYPES_BROAD = REFUSAL_TYPES + (IndexError, KeyError, AttributeError, AssertionError, RuntimeError, ZeroDivisionError)
 
 def outcome(fn, *args, refusal=REFUSAL_TYPES, **kwargs):
     """Classify a library call: ('value', v) | ('refused', exc) | ('crashed', exc)."""
